@@ -310,7 +310,7 @@ def run_model(case_lines):
 HISTORY = {}
 
 
-def run_impl(bdir, case_lines, timeout=600):
+def run_impl(bdir, case_lines, timeout=3600):
     """runs the harness; a sanitizer abort / crash is a result: returns (outputs, crashes) where
     crashes = [(case_id, case_line, stderr_excerpt, returncode)]"""
     env = dict(os.environ)
@@ -330,6 +330,11 @@ def run_impl(bdir, case_lines, timeout=600):
         got = parse_out(so)
         outs.update(got)
         if rc == 0:
+            break
+        if rc == -999:
+            # the harness did not finish its batch in time (a loaded machine): what it answered is used, the rest is
+            # inconclusive - not a crash of any particular case
+            log("harness batch timed out after %d s: %d of %d cases answered, the rest inconclusive" % (timeout, len(got), len(remaining)))
             break
         # first case without output is the one that died
         idx = None
